@@ -6,6 +6,7 @@ guards, loops, user names that resemble generated ones), lowered by the real cre
 and rewritten by each real pass alone and by the four in the Fortran generator's order;
 specs/Rewrite.tla runs the trees before and after on every small input valuation."""
 
+import json
 import random
 
 from . import exprs, gen, progs, tlc, trees
@@ -56,6 +57,61 @@ def alphabet():
         assign("b", S(C(1), CALL("<func>f", [CALL("<func>g", [Y, C(1)])]))),        # call nested in a call's argument
         assign("c", S(V("temp__state_y"), Y)),
     ]
+
+
+def _gexpr(form):
+    f, g = "<func>f", "<func>g"
+    inrange = ["min", [["max", [Z, C(0)]], C(2)]]
+    return {
+        "const": C(2), "var": Y, "sum": S(Y, Z), "subconst": SUB(W, C(0)), "subvar": SUB(W, inrange), "subloop": SUB(W, V("i")),
+        "ifexpr": IF(CMP("<", Y, C(2)), Y, Z), "min": ["min", [Y, Z]],
+        "and": ["and", [CMP("<", Y, C(2)), CMP("<", Z, C(2))]], "or": ["or", [CMP("<", Y, C(2)), CMP("<", CALL(f, [Z]), C(4))]],
+        "call": CALL(f, [Y]), "callkw": CALL(f, [Y], [["k", Z]]), "pow": ["pow", CALL(f, [Y]), C(2)],
+        "quot": CALL(g, [Y, CALL(f, [Z])]), "neg": ["prod", [C(-1), CALL(f, [C(0)])]], "statevar": Z,
+        "pvar": CALL(f, [IF(CMP("<", Y, C(2)), CALL(f, [Y]), Z)]), "cmp": CMP("<", CALL(f, [Y]), C(3)),
+    }[form]
+
+
+def shape_programs(sh):
+    """Instantiate one StmtGen shape (assignments and calls) with the names of the 'rewrite' profile; loops whose
+    identifier the statement does not mention are also given identifiers that resemble generated names."""
+    if sh["kind"] not in ("assign", "acall1", "acall2"):
+        return []
+    uses_loop = sh["rhs"] == "subloop" or sh["lhs"] in ("subloop", "subsum")
+    out = []
+    for ident in (["i"] if uses_loop or sh["loops"] == "none" else ["i", "tmp", "tmp_0"]):
+        loops = {"none": [], "zero_to_var": [[ident, C(0), C(3)]], "var_to_var": [[ident, C(1), ["min", [S(Z, C(1)), C(3)]]]],
+                 "two_dependent": [[ident, C(0), C(2)], ["j", V(ident), C(2)]]}[sh["loops"]]
+        guard = {"none": None, "cmp": CMP("<", Y, C(2)), "and": ["and", [CMP(">", Y, C(0)), CMP("<", Z, C(3))]],
+                 "statecmp": CMP("<", Z, Y)}[sh["guard"]]
+        if sh["kind"] == "assign":
+            lhs, sub = {"plain": ("a", None), "subconst": (W, [C(0)]), "subvar": (W, [["min", [["max", [Z, C(0)]], C(2)]]]),
+                        "subloop": (W, [V("i")]), "subsum": (W, [S(V("i"), C(-1))]), "pvarsub": ("<state>z", None),
+                        "statevar": ("<state>y", None)}[sh["lhs"]]
+            rhs = _gexpr(sh["rhs"])
+            if sh["lhs"] == "subsum" and sh["loops"] != "var_to_var":
+                continue
+            if rhs[0] == "call" and sub and not loops:
+                continue                                      # the builder refuses this form (ValueError)
+            st = assign(lhs, rhs, sub=sub, loops=loops)
+        else:
+            kw = {"none": [], "var": [["k", Z]], "sum": [["k", S(Z, C(1))]], "sub": [["k", SUB(W, C(1))]],
+                  "ifexpr": [["k", IF(CMP("<", Y, C(2)), CALL("<func>f", [Z]), C(1))]]}[sh["kw"]]
+            lhs, f = {"acall1": (["a"], "<func>f"), "acall2": (["a", "b"], "<func>g2")}[sh["kind"]]
+            st = acall(lhs, f, [_gexpr(sh["rhs"])], kw=kw if f == "<func>f" else [])
+        out.append(([if_(guard)] if guard else []) + [st] + ([{"op": "endif"}] if guard else []))
+    return out
+
+
+def grammar_programs(chk):
+    res = tlc.run_tlc("StmtGen", workers=1, timeout=600)
+    chk.add_tlc(res)
+    out = []
+    for sh in res.json_lines("GEN"):
+        out.extend(shape_programs(sh))
+    if len(out) < 500:
+        raise tlc.MachineryError("StmtGen produced %d programs" % len(out))
+    return out
 
 
 def export_tree(node):
@@ -167,6 +223,12 @@ def predicate(case, clause):
             walk(j[2], True)
             walk(j[3], True)
             return
+        if t in ("and", "or"):
+            for k, x in enumerate(j[1]):
+                if k > 0 and '"call"' in json.dumps(x):
+                    feats.add("call-inside-short-circuit-operand")
+                walk(x, in_branch)
+            return
         for x in j[1:]:
             if isinstance(x, list) and x and isinstance(x[0], str) and len(x) > 1 and x[0] in (
                     "v", "c", "sum", "prod", "pow", "cmp", "and", "or", "not", "if", "min", "max", "sub", "call"):
@@ -194,6 +256,10 @@ def run(chk):
                               typed=INPUTS)
     programs += [p for p in sim if len(p) >= 3]
     programs += [gen.random_program(rng, alpha, rng.randint(4, 9), typed=INPUTS) for _ in range(80 if chk.quick else 3000)]
+    gram = grammar_programs(chk)
+    if chk.quick:
+        gram = rng.sample(gram, 900)
+    programs += gram
     cases = []
     for calls in programs:
         try:
@@ -222,7 +288,8 @@ def run(chk):
         "disagreements_checked": len(bad),
         "distinct_nontrivial": sum(1 for k, c in enumerate(cases) if k in judged and c["after"] != c["before"]),
         "rule": "programs = every ProgGen behaviour of depth <= %d over the %d-call 'rewrite' alphabet + simulated "
-                "depth-7 and seeded 4-9 call programs; each lowered by the real create_ast_from_phase and rewritten by "
+                "depth-7 and seeded 4-9 call programs + single statements of the grammar StmtGen.tla (rhs form x assignee form x "
+                "loop nest x guard x keyword form; loop identifiers that resemble generated names); each lowered by the real create_ast_from_phase and rewritten by "
                 "each of the four passes alone and by the pipeline; judged on all valuations of the two scalar inputs "
                 "in {0,1,3}; non-trivial = the pass changed the tree and the original ran inside the fragment"
                 % (2 if chk.quick else 3, len(alpha)),
